@@ -35,8 +35,15 @@
 //     cancelled before the call;
 //   - a partial success => nil result and exactly one handled error carrying
 //     the message and the rejected count;
-//   - Export returns within (everything the script can legitimately cost)
-//   - 10 s ("export_blocked_beyond_budget").
+//   - Export returns within everything the script can legitimately cost plus
+//     10 s ("export_blocked_beyond_budget").
+//
+// With a short exporter timeout (100 / 200 ms, only generated together with
+// held requests) an OTLP/HTTP client may give up on an attempt while the
+// collector's answer is in flight, so "what the collector sent" is not "what
+// the client saw": the retry-set and hint clauses are not evaluated for HTTP
+// cases of that class (they are for all others), and a truncated request body
+// is accepted whenever a cancellation / shutdown / short timeout is in play.
 //
 // Upper-bound timing clauses ("arrives after ...") are reported only if three
 // QUIET runs of the case show them (a canary goroutine measures how late 1 ms
@@ -512,11 +519,9 @@ func stepRetryable(isGRPC bool, st Step) bool {
 // behaves: every held request has a reason to be abandoned and waits that only
 // a cancellation ends are cancelled.
 func finite(c Case) bool {
-	ex, ok := exporters[c.Exporter]
-	if !ok || len(c.Script) == 0 || len(c.Script) > 8 || c.Items < 1 || c.Items > 16 {
+	if _, ok := exporters[c.Exporter]; !ok || len(c.Script) == 0 || len(c.Script) > 8 || c.Items < 1 || c.Items > 16 {
 		return false
 	}
-	_ = ex
 	short := c.TimeoutMS > 0 && c.TimeoutMS <= shortTimeout
 	for i, st := range c.Script {
 		switch st.Kind {
